@@ -31,7 +31,14 @@ def strictlySorted : List Entry → Bool
   | [_] => true
   | a :: b :: rest => decide (key a < key b) && strictlySorted (b :: rest)
 
-def fsckTreeOk (l : List Entry) : Bool := l.all (fun e => nameOk e.name) && strictlySorted l
+/-- no two entries share a name (a file and a directory of the same name are a duplicate too) -/
+def distinct : List String → Bool
+  | [] => true
+  | a :: t => !t.contains a && distinct t
+
+def namesDistinct (l : List Entry) : Bool := distinct (l.map (·.name))
+
+def fsckTreeOk (l : List Entry) : Bool := l.all (fun e => nameOk e.name) && strictlySorted l && namesDistinct l
 
 /-! the entries of a pack tree (`operationPack.Write`) and of its `extra` tree -/
 
